@@ -559,6 +559,28 @@ func (z *zoneFlow) refine(d *dbm, cond ssa.Value, taken bool) {
 			}
 		}
 	case *ssa.Call:
+		// a predicate helper whose true answer implies strings.HasPrefix(param, prefix): the same length fact for the arguments
+		if g.Pol {
+			if h := staticCallee(&c.Call); h != nil && z.p != nil && z.p.InModule(h) && !z.p.Exported(h) && len(h.Blocks) > 0 {
+				for _, pf := range predicatePrefixFacts(z.p, h) {
+					if pf.s >= len(c.Call.Args) {
+						continue
+					}
+					st := z.lenTerm(c.Call.Args[pf.s])
+					var pt zterm
+					if pf.p >= 0 && pf.p < len(c.Call.Args) {
+						pt = z.lenTerm(c.Call.Args[pf.p])
+					} else if pf.g != "" {
+						if n, ok := z.nodes["len(load("+pf.g+"))"]; ok {
+							pt = zterm{n, 0, true}
+						}
+					}
+					if st.ok && pt.ok && st.n < d.n && pt.n < d.n {
+						d.add(pt.n, st.n, st.off-pt.off)
+					}
+				}
+			}
+		}
 		if g.Pol && isCallTo(&c.Call, "strings.HasPrefix", "strings.HasSuffix", "strings.Contains") {
 			s, p := z.lenTerm(c.Call.Args[0]), z.lenTerm(c.Call.Args[1])
 			if s.ok && p.ok && s.n < d.n && p.n < d.n {
@@ -824,3 +846,77 @@ func (z *zoneFlow) describe(at ssa.Instruction, t zterm) string {
 }
 
 var _ = strings.Join
+
+type prefixFact struct {
+	s, p int    // parameter indexes of the string and of the prefix (p < 0: the prefix is a package variable)
+	g    string // "pkg.name" of the package variable
+}
+
+// predicatePrefixFacts: h returns true only if strings.HasPrefix / HasSuffix / Contains(param_s, P) returned true, P being another
+// parameter or a load of a package variable. Every return of h hands back the constant false, the call itself, or a phi of those.
+func predicatePrefixFacts(p *Prog, h *ssa.Function) []prefixFact {
+	key := fmt.Sprintf("prefixfacts:%p", h)
+	if v, ok := p.facts[key]; ok {
+		return v.([]prefixFact)
+	}
+	var out []prefixFact
+	p.facts[key] = out
+	if h.Signature.Results().Len() != 1 || !isBoolType(h.Signature.Results().At(0).Type()) {
+		return nil
+	}
+	var calls []*ssa.Call
+	eachInstr(h, func(b *ssa.BasicBlock, in ssa.Instruction) {
+		if c, ok := in.(*ssa.Call); ok && isCallTo(&c.Call, "strings.HasPrefix", "strings.HasSuffix", "strings.Contains") {
+			calls = append(calls, c)
+		}
+	})
+	for _, c := range calls {
+		var onlyVia func(v ssa.Value, d int) bool
+		onlyVia = func(v ssa.Value, d int) bool {
+			if d > 4 {
+				return false
+			}
+			if v == ssa.Value(c) {
+				return true
+			}
+			if b, isC := constBool(v); isC {
+				return !b
+			}
+			if ph, isPhi := v.(*ssa.Phi); isPhi {
+				for _, e := range ph.Edges {
+					if !onlyVia(e, d+1) {
+						return false
+					}
+				}
+				return true
+			}
+			return false
+		}
+		all := true
+		eachInstr(h, func(b *ssa.BasicBlock, in ssa.Instruction) {
+			if ret, ok := in.(*ssa.Return); ok && !onlyVia(ret.Results[0], 0) {
+				all = false
+			}
+		})
+		if !all {
+			continue
+		}
+		si, pi, gname := -1, -1, ""
+		for i, prm := range h.Params {
+			if c.Call.Args[0] == ssa.Value(prm) {
+				si = i
+			}
+			if c.Call.Args[1] == ssa.Value(prm) {
+				pi = i
+			}
+		}
+		if g := globalOf(c.Call.Args[1]); g != nil && p.stableGlobal(g) {
+			gname = g.Pkg.Pkg.Name() + "." + g.Name()
+		}
+		if si >= 0 && (pi >= 0 || gname != "") {
+			out = append(out, prefixFact{si, pi, gname})
+		}
+	}
+	p.facts[key] = out
+	return out
+}
